@@ -104,3 +104,38 @@ Proof. exact AsmParserP.C13_asm_spans_valid. Qed.
 (* a token's byte length is the length of a non-empty prefix of the text: the walker only stops on character boundaries *)
 Theorem C13_token_prefix : forall (t : list N) (k : tkind) (n : N), t <> nil -> decide_next_token t = (k, n) -> is_tok t n.
 Proof. exact AsmParserP.decide_next_token_prefix. Qed.
+
+(* ===== #bankdef field blocks (src/asm/parser/fields.rs, directive_bankdef.rs) with the span of the first error:
+   Model/AsmFields.v, tied to the code by the `fields` stream of tools/props/ext_asmparser.py ===== *)
+From CA Require Import Model.AsmFields Proofs.AsmFieldsP.
+(* the located model is the unlocated one plus positions: same acceptance, same AST *)
+Theorem C13_located_model_refines : forall t : text, erase (fparse_file t) = parse_file t.
+Proof. exact AsmFieldsP.fparse_file_erase. Qed.
+(* a field's span is exactly the token that spells its name (valid span; the text under it is the name): a running join
+   of the fields' spans - seeded defect C13-4 - is excluded *)
+Theorem C13_field_spans_exact : forall (t : text) (dup : bool) (fuel bd f ed g : nat) (w : walker) (l : list afield) (w' : walker),
+  wf t w -> ffields dup (asm_hook fuel bd) f ed g w nil = FOk l w' ->
+  Forall (fun x : afield => vspan t (snd (fst x)) /\ excerpt t (snd (fst x)) = fst (fst x)) l.
+Proof. exact AsmFieldsP.C13_field_spans_exact. Qed.
+(* fault localisation, for every block shape: with l the fields as written (source order), a repeated field name is
+   reported at the NAME token of the first repeating field, otherwise an unknown field name at the NAME token of the
+   first unknown field *)
+Theorem C13_bankdef_field_fault_at_name :
+  forall (t : text) (fuel bd f ed : nat) (header : span) (w : walker) (nm : span * text) (w1 : walker) (b : text) (w2 : walker)
+         (l : list afield) (w3 : walker) (x : afield),
+  wf t w ->
+  fexpect_sp w TIdentifier = FOk nm w1 -> fexpect w1 TBraceOpen = FOk b w2 ->
+  ffields false (asm_hook fuel bd) f ed f w2 nil = FOk l w3 ->
+  (first_dup nil l = Some x \/ (first_dup nil l = None /\ first_unknown l = Some x)) ->
+  fbankdef (asm_hook fuel bd) f ed header w = FErr (snd (fst x)) /\ In x l /\
+  vspan t (snd (fst x)) /\ excerpt t (snd (fst x)) = fst (fst x).
+Proof. exact AsmFieldsP.C13_bankdef_field_fault_at_name. Qed.
+(* C13_spans_valid for the located model, and for the error span itself *)
+Theorem C13_spans_valid_located : forall (t : text) (nodes : list anode) (w : walker) (n m : anode) (sp : span),
+  fparse_file t = FOk nodes w -> In n nodes -> sub m n -> In sp (node_spans m) -> vspan t sp.
+Proof. exact AsmFieldsP.C13_spans_valid_located. Qed.
+Theorem C13_error_span_valid : forall (t : text) (sp : span), fparse_file t = FErr sp -> vspan t sp.
+Proof. exact AsmFieldsP.C13_error_span_valid. Qed.
+Example C13_bankdef_field_fault_nonvacuous :
+  fparse_file fsample = FErr (37, 42)%N /\ excerpt fsample (37, 42)%N = (115 :: 105 :: 122 :: 101 :: 101 :: nil)%N /\ parse_file fsample = PErr.
+Proof. exact AsmFieldsP.C13_bankdef_field_fault_nonvacuous. Qed.
